@@ -226,6 +226,17 @@ class Reject:
     shard: int | None = None
 
 
+def _mem_budget_gb() -> float:
+    """Memory the parallel trace validators may use together: 60 % of what is available now (at least 8 GB)."""
+    try:
+        for line in open("/proc/meminfo"):
+            if line.startswith("MemAvailable:"):
+                return max(8.0, int(line.split()[1]) / 1048576 * 0.6)
+    except OSError:
+        pass
+    return 16.0
+
+
 def _group_divergences(diverg, cap: int = 20) -> list:
     """Reference-clause mismatches grouped by key: how many, and one event (cut short) to look at."""
     groups: dict[str, dict] = {}
@@ -416,7 +427,14 @@ class Ctx:
             return r
 
         new: list[Reject] = []
-        with cf.ThreadPoolExecutor(max_workers=min(NCPU, len(shards))) as ex:
+        # one JVM per shard, in parallel - but never more of them than fit in memory with their heaps full (the thorough tier's shards
+        # are millions of events: 16 x 6 GB was more than the machine has, and the kernel killed the check)
+        try:
+            gb = float(heap.rstrip("gG")) if heap.lower().endswith("g") else float(heap.rstrip("mM")) / 1024
+        except ValueError:
+            gb = 4.0
+        fit = max(2, int(_mem_budget_gb() // max(gb, 0.5)))
+        with cf.ThreadPoolExecutor(max_workers=min(NCPU, len(shards), NCPU if self.quick else fit)) as ex:
             results = list(ex.map(one, range(len(shards))))
         for k, (removed, index) in unevaluable.items():
             for orig, ev in removed:
